@@ -579,15 +579,20 @@ func TestVerifWorker(t *testing.T) {
 	}
 	enc := json.NewEncoder(out)
 	go func() {
-		last, since := int64(-1), time.Now()
+		// Idle time is counted in 2 s ticks this goroutine actually lived
+		// through, not read off a clock: a machine that is suspended or starved
+		// for a while (a snapshot of the sandbox, heavy load) makes a tick late
+		// but does not add ticks.
+		last, idle := int64(-1), 0
 		for {
 			time.Sleep(2 * time.Second)
 			cur := atomic.LoadInt64(&liveCtr)
 			if cur != last {
-				last, since = cur, time.Now()
+				last, idle = cur, 0
 				continue
 			}
-			if time.Since(since) > 90*time.Second {
+			idle++
+			if idle > 45 {
 				buf := make([]byte, 1<<20)
 				n := runtime.Stack(buf, true)
 				fmt.Fprintf(os.Stderr, "STALL: no simulated execution finished for 90 s (a task is blocked on something the simulator does not control, or an unbounded loop without calls). Goroutines:\n%s\n", buf[:n])
